@@ -133,10 +133,68 @@ def cached_compile(pid, path, flags, env):
         return o
 
 
+def _match_paren(text, i):
+    """index just after the parenthesis that closes the one at text[i]"""
+    depth = 0
+    while i < len(text):
+        c = text[i]
+        if c == "(":
+            depth += 1
+        elif c == ")":
+            depth -= 1
+            if depth == 0:
+                return i + 1
+        i += 1
+    raise Infra("unbalanced parenthesis")
+
+
+def annotate_loops(text, sig, annots, path):
+    """insert in-source loop contracts after the headers of the for/while loops of one
+    function (textual order).  Nothing else of the file changes; aborts unless the function
+    is found exactly once and has exactly len(annots) for/while loops."""
+    ms = list(re.finditer(sig, text))
+    if len(ms) != 1:
+        raise Infra("annotate: signature %r found %d times in %s" % (sig, len(ms), path))
+    start = text.index("{", _match_paren(text, text.index("(", ms[0].end() - 1)))
+    depth, i = 0, start
+    while True:
+        if text[i] == "{":
+            depth += 1
+        elif text[i] == "}":
+            depth -= 1
+            if depth == 0:
+                break
+        i += 1
+    body = text[start:i]
+    clean = re.sub(r"//[^\n]*|/\*.*?\*/", lambda m: " " * len(m.group(0)), body, flags=re.S)
+    heads = [m for m in re.finditer(r"\b(for|while)\s*\(", clean)]
+    if len(heads) != len(annots):
+        raise Infra("annotate: %s has %d for/while loops in %s, the plan annotates %d" % (sig, len(heads), path, len(annots)))
+    out, last = [], 0
+    for m, a in zip(heads, annots):
+        end = _match_paren(clean, m.end() - 1)
+        out.append(body[last:end])
+        out.append("\n" + a + "\n")
+        last = end
+    out.append(body[last:])
+    return text[:start] + "".join(out) + text[i:]
+
+
 def apply_rewrites(g, wd):
-    """mechanical, must-fire rewrite rules on a scratch copy (front-end limits only)"""
+    """mechanical, must-fire rewrite rules on a scratch copy: front-end limits, and in-place
+    loop-contract annotation (the function text itself is unchanged)"""
     mapping = {}
-    for (path, pat, repl, how) in g["rewrite"]:
+    for rule in g["rewrite"]:
+        if isinstance(rule, dict):
+            path = rule["file"]
+            src = mapping.get(path, os.path.join(REPO, path))
+            text = open(src, encoding="utf-8", errors="surrogateescape").read()
+            new = annotate_loops(text, rule["sig"], rule["loops"], path)
+            dst = os.path.join(wd, "rw_" + path.replace("/", "_"))
+            open(dst, "w", encoding="utf-8", errors="surrogateescape").write(new)
+            mapping[path] = dst
+            continue
+        (path, pat, repl, how) = rule
         src = mapping.get(path, os.path.join(REPO, path))
         text = open(src, encoding="utf-8", errors="surrogateescape").read()
         new, n = re.subn(pat, repl, text)
@@ -274,7 +332,7 @@ def make_loops_json(spec, binary, wd, env):
         entries = []
         for k, lp in enumerate(loops):
             text = " ".join([lp.get("assigns", ""), lp["inv"], lp.get("dec", "")])
-            ids = set(re.findall(r"[A-Za-z_][A-Za-z_0-9]*", text)) - _C_KEYWORDS
+            ids = set(re.findall(r"(?<![0-9A-Za-z_])[A-Za-z_][A-Za-z_0-9]*", text)) - _C_KEYWORDS
             smap = []
             for ident in sorted(ids):
                 if ident in local:
